@@ -177,12 +177,20 @@ PLANS = {
                   ex("txtb", "txtb", 1, 3, alphabet=["0", "a", "_", "S", "V"], kinds=["bytes"], invariants=DEFAULT_INVARIANTS + ["TextRefines"], modes=["E"]),
                   ex("txtr", "txtr", 1, 3, alphabet=["0", "1", "7", "9", "f", "z"], kinds=["str", "bytes"], invariants=DEFAULT_INVARIANTS + ["TextRefines"], modes=["E"]),
                   ex("txtc", "txtc", 1, 3, alphabet=["0", "1", "a", "S", "N", "+"], invariants=DEFAULT_INVARIANTS + ["TextRefines"], modes=["E"]),
+                  ex("txtx", "txt", 1, 2, alphabet=["9", "a", "g", "A", "@", "`", "H", "I", "K", "M"], invariants=INV_TEXT, modes=["E"]),
+                  ex("txtbx", "txtb", 1, 2, alphabet=["0", "9", "a", "g", "A", "@", "`", "/", ":"], kinds=["bytes"], invariants=INV_TEXT, modes=["E"]),
+                  ex("txtrx", "txtr", 1, 2, alphabet=["0", "9", "f", "g", "z", "A", "@", "`", "/", ":", "{", "["], kinds=["str", "bytes"], invariants=INV_TEXT, modes=["E"]),
+                  ex("txtcx", "txtc", 1, 3, alphabet=["1", "a", "S", "H", "I", "K"], invariants=INV_TEXT, modes=["E"]),
                   rec("txtR", "txt", 2500, 6, 8, invariants=DEFAULT_INVARIANTS + ["TextRefines"]), rec("txtbR", "txtb", 1500, 6, 8, kinds=["bytes"], invariants=DEFAULT_INVARIANTS + ["TextRefines"]),
                   {"kind": "regex", "name": "regex", "len": 3}],
         "thorough": [ex("txt", "txt", 1, 4, alphabet=["0", "1", "a", "_", "S", "R", "N", "E", "+"], invariants=DEFAULT_INVARIANTS + ["TextRefines"]),
                      ex("txtb", "txtb", 1, 4, alphabet=["0", "1", "a", "_", "S", "V", "N", "+"], kinds=["bytes"], invariants=DEFAULT_INVARIANTS + ["TextRefines"], modes=["E"]),
                      ex("txtr", "txtr", 1, 4, alphabet=["0", "1", "7", "9", "a", "f", "z"], kinds=["str", "bytes"], invariants=DEFAULT_INVARIANTS + ["TextRefines"], modes=["E"]),
                      ex("txtc", "txtc", 1, 4, alphabet=["0", "1", "a", "_", "S", "N", "R", "+"], invariants=DEFAULT_INVARIANTS + ["TextRefines"]),
+                     ex("txtx", "txt", 1, 3, alphabet=["9", "a", "g", "A", "@", "`", "H", "I", "K", "M"], invariants=INV_TEXT, modes=["E"]),
+                     ex("txtbx", "txtb", 1, 3, alphabet=["0", "9", "a", "g", "A", "@", "`", "/", ":"], kinds=["bytes"], invariants=INV_TEXT, modes=["E"]),
+                     ex("txtrx", "txtr", 1, 3, alphabet=["0", "9", "f", "g", "z", "A", "@", "`", "/", ":", "{", "["], kinds=["str", "bytes"], invariants=INV_TEXT, modes=["E"]),
+                     ex("txtcx", "txtc", 1, 4, alphabet=["1", "a", "S", "H", "I", "K"], invariants=INV_TEXT, modes=["E"]),
                      ex("txtw", "txt", 1, 3, alphabet=["T", "V", "F", "X", "L", "P", "N", "R", "a"], invariants=DEFAULT_INVARIANTS + ["TextRefines"], modes=["E"]),
                      rec("txtR", "txt", 40000, 6, 12, invariants=DEFAULT_INVARIANTS + ["TextRefines"]), rec("txtbR", "txtb", 20000, 6, 12, kinds=["bytes"], invariants=DEFAULT_INVARIANTS + ["TextRefines"]),
                      {"kind": "regex", "name": "regex", "len": 5}],
